@@ -1,38 +1,22 @@
 /-
 C05 — the PDB reader always classifies: for every text and every option set the model reader answers with a
 structure and diagnostics none of which fails the level, or with a rejection list that contains a diagnostic
-failing the level (so it is never empty) — or, for texts with SEQRES records, declines to predict (those inputs
-are held to the property by the implementation-side oracles only).
+failing the level (so it is never empty). Texts with SEQRES records are no exception: the SEQRES checks are part
+of the model (`validateSeqres`).
 -/
 import PdbModel.PdbRead
 namespace PdbModel
 
 theorem C05_classifies (o : ReadOpts) (lines : List (List Char)) :
-    readPdb o lines = .unsupported ∨
     (∃ f ds, readPdb o lines = .ok f ds ∧ ds.any (fun e => e.level.fails o.level) = false) ∨
     (∃ ds, readPdb o lines = .err ds ∧ ds.any (fun e => e.level.fails o.level) = true ∧ ds ≠ []) := by
   unfold readPdb
+  rcases hc : readPdbCore o lines with ⟨f, errors⟩
+  simp only
   split
-  · exact Or.inl rfl
-  · next f errors _ =>
-    split
-    · next h =>
-      refine Or.inr (Or.inr ⟨errors, rfl, h, ?_⟩)
-      intro he; rw [he] at h; simp at h
-    · next h => exact Or.inr (Or.inl ⟨f, errors, rfl, by simpa using h⟩)
-
-/-- only texts with SEQRES records are declined -/
-theorem C05_unsupported_only_seqres (o : ReadOpts) (lines : List (List Char)) (h : readPdb o lines = .unsupported) :
-    (((List.range lines.length).zip lines).foldl (fun s (il : Nat × List Char) => stepLine o s (il.1 + 1) il.2)
-      ({} : PState)).sawSeqres = true := by
-  unfold readPdb at h
-  split at h
-  · next hc =>
-    unfold readPdbCore at hc
-    simp only at hc
-    split at hc
-    · next hs => exact hs
-    · cases hc
-  · split at h <;> cases h
+  · next h =>
+    refine Or.inr ⟨errors, rfl, h, ?_⟩
+    intro he; rw [he] at h; simp at h
+  · next h => exact Or.inl ⟨f, errors, rfl, by simpa using h⟩
 
 end PdbModel
